@@ -85,7 +85,72 @@ func (s *State) assume(f string) {
 	if f == "true" {
 		return
 	}
-	s.pc = append(s.pc, imp(s.guard(), f))
+	g := s.guard()
+	for _, c := range splitAnd(f) {
+		if c != "true" {
+			s.pc = append(s.pc, imp(g, c))
+		}
+	}
+}
+
+// splitAnd returns the top-level conjuncts of an SMT term (recursively
+// through nested conjunctions); anything else is returned as is.
+func splitAnd(f string) []string {
+	if !strings.HasPrefix(f, "(and ") || !strings.HasSuffix(f, ")") {
+		return []string{f}
+	}
+	body := f[5 : len(f)-1]
+	var out []string
+	depth, start := 0, -1
+	flush := func(end int) {
+		if start >= 0 {
+			out = append(out, splitAnd(body[start:end])...)
+			start = -1
+		}
+	}
+	inBar := false
+	for i := 0; i < len(body); i++ {
+		ch := body[i]
+		if inBar {
+			if ch == '|' {
+				inBar = false
+			}
+			continue
+		}
+		switch ch {
+		case '|':
+			inBar = true
+			if start < 0 {
+				start = i
+			}
+		case '(':
+			if depth == 0 && start < 0 {
+				start = i
+			}
+			depth++
+		case ')':
+			depth--
+			if depth < 0 {
+				return []string{f}
+			}
+			if depth == 0 {
+				flush(i + 1)
+			}
+		case ' ', '\n', '\t':
+			if depth == 0 {
+				flush(i)
+			}
+		default:
+			if depth == 0 && start < 0 {
+				start = i
+			}
+		}
+	}
+	if depth != 0 {
+		return []string{f}
+	}
+	flush(len(body))
+	return out
 }
 
 // mergeStates joins several states that descend from a common ancestor.
